@@ -1228,7 +1228,7 @@ struct const_subarray : array_types<T, D, ElementPtr, Layout> {
 	}
 
  public:
-	constexpr auto taked(difference_type n) const& -> basic_const_array { return taked_aux_(n); }
+	constexpr auto taked(difference_type n) const& -> const_subarray { return taked_aux_(n); }
 	// constexpr auto taked(difference_type n)     && -> const_subarray    { return taked_aux_(n); }
 	// constexpr auto taked(difference_type n)      & -> const_subarray    { return taked_aux_(n); }
 
@@ -1265,7 +1265,7 @@ struct const_subarray : array_types<T, D, ElementPtr, Layout> {
 	}
 
  public:
-	constexpr auto dropped(difference_type n) const& -> basic_const_array { return dropped_aux_(n); }
+	constexpr auto dropped(difference_type n) const& -> const_subarray { return dropped_aux_(n); }
 	constexpr auto dropped(difference_type n)     && ->    const_subarray { return dropped_aux_(n); }
 	constexpr auto dropped(difference_type n)      & ->    const_subarray { return dropped_aux_(n); }
 
@@ -1297,7 +1297,7 @@ struct const_subarray : array_types<T, D, ElementPtr, Layout> {
  public:
 	BOOST_MULTI_HD constexpr auto sliced(index first, index last) const& -> const_subarray { return sliced_aux_(first, last); }
 
-	constexpr auto blocked(index first, index last) const& -> basic_const_array { return sliced(first, last).reindexed(first); }
+	constexpr auto blocked(index first, index last) const& -> const_subarray { return sliced(first, last).reindexed(first); }
 	constexpr auto blocked(index first, index last)      & -> const_subarray { return sliced(first, last).reindexed(first); }
 
 	using iextension = typename const_subarray::index_extension;
@@ -1316,13 +1316,13 @@ struct const_subarray : array_types<T, D, ElementPtr, Layout> {
 	template<class... Xs>
 	constexpr auto stenciled(iextension iex, iextension iex1, iextension iex2, iextension iex3, Xs... iexs)    && -> const_subarray{ return ((stenciled(iex).rotated()).stenciled(iex1, iex2, iex3, iexs...)).unrotated(); }
 
-	constexpr auto stenciled(iextension iex)                                                    const& -> basic_const_array { return blocked(iex.first(), iex.last()); }
-	constexpr auto stenciled(iextension iex, iextension iex1)                                   const& -> basic_const_array { return ((stenciled(iex).rotated()).stenciled(iex1)).unrotated(); }
-	constexpr auto stenciled(iextension iex, iextension iex1, iextension iex2)                  const& -> basic_const_array { return ((stenciled(iex).rotated()).stenciled(iex1, iex2)).unrotated(); }
-	constexpr auto stenciled(iextension iex, iextension iex1, iextension iex2, iextension iex3) const& -> basic_const_array { return ((stenciled(iex).rotated()).stenciled(iex1, iex2, iex3)).unrotated(); }
+	constexpr auto stenciled(iextension iex)                                                    const& -> const_subarray { return blocked(iex.first(), iex.last()); }
+	constexpr auto stenciled(iextension iex, iextension iex1)                                   const& -> const_subarray { return ((stenciled(iex).rotated()).stenciled(iex1)).unrotated(); }
+	constexpr auto stenciled(iextension iex, iextension iex1, iextension iex2)                  const& -> const_subarray { return ((stenciled(iex).rotated()).stenciled(iex1, iex2)).unrotated(); }
+	constexpr auto stenciled(iextension iex, iextension iex1, iextension iex2, iextension iex3) const& -> const_subarray { return ((stenciled(iex).rotated()).stenciled(iex1, iex2, iex3)).unrotated(); }
 
 	template<class... Xs>
-	constexpr auto stenciled(iextension iex, iextension iex1, iextension iex2, iextension iex3, Xs... iexs) const& -> basic_const_array {
+	constexpr auto stenciled(iextension iex, iextension iex1, iextension iex2, iextension iex3, Xs... iexs) const& -> const_subarray {
 		return ((stenciled(iex).rotated()).stenciled(iex1, iex2, iex3, iexs...)).unrotated();
 	}
 
@@ -1349,7 +1349,7 @@ struct const_subarray : array_types<T, D, ElementPtr, Layout> {
 	}
 
  public:
-	constexpr auto strided(difference_type diff) const& -> basic_const_array { return strided_aux_(diff); }
+	constexpr auto strided(difference_type diff) const& -> const_subarray { return strided_aux_(diff); }
 	constexpr auto strided(difference_type diff)     && ->    const_subarray { return strided_aux_(diff); }
 	constexpr auto strided(difference_type diff)      & ->    const_subarray { return strided_aux_(diff); }
 
@@ -1489,10 +1489,10 @@ struct const_subarray : array_types<T, D, ElementPtr, Layout> {
 	}
 
  public:
-	       constexpr auto reversed()           const&    -> basic_const_array { return reversed_aux_(); }
+	       constexpr auto reversed()           const&    -> const_subarray { return reversed_aux_(); }
 	       constexpr auto reversed()                &    ->          const_subarray { return reversed_aux_(); }
 	       constexpr auto reversed()               &&    ->          const_subarray { return reversed_aux_(); }
-	friend constexpr auto reversed(const_subarray const& self) -> basic_const_array { return           self .reversed(); }
+	friend constexpr auto reversed(const_subarray const& self) -> const_subarray { return           self .reversed(); }
 	friend constexpr auto reversed(const_subarray      & self) ->          const_subarray { return           self .reversed(); }
 	friend constexpr auto reversed(const_subarray     && self) ->          const_subarray { return std::move(self).reversed(); }
 
@@ -2005,7 +2005,7 @@ class subarray : public const_subarray<T, D, ElementPtr, Layout> {
 	constexpr auto front()     && -> decltype(auto) { return *(this->begin()); }
 	constexpr auto back()      && -> decltype(auto) { return *(this->end() - 1); }
 
-	template<class Dummy = void, class BaseView = std::enable_if_t<sizeof(Dummy*) && (D != 0), const_subarray<T, D, ElementPtr, Layout>>> constexpr auto reversed() const& -> typename BaseView::basic_const_array { return static_cast<const_subarray<T, D, ElementPtr, Layout> const&>(*this).reversed(); }
+	template<class Dummy = void, class BaseView = std::enable_if_t<sizeof(Dummy*) && (D != 0), const_subarray<T, D, ElementPtr, Layout>>> constexpr auto reversed() const& -> decltype(std::declval<BaseView const&>().reversed()) { return static_cast<const_subarray<T, D, ElementPtr, Layout> const&>(*this).reversed(); }
 	constexpr auto reversed()      & -> subarray { return const_subarray<T, D, ElementPtr, Layout>::reversed(); }
 	constexpr auto reversed()     && -> subarray { return const_subarray<T, D, ElementPtr, Layout>::reversed(); }
 
@@ -2927,6 +2927,11 @@ struct const_subarray<T, 1, ElementPtr, Layout>  // NOLINT(fuchsia-multiple-inhe
 		new_layout.reindex(first);
 		return const_subarray{new_layout, types::base_};
 	}
+	constexpr auto reindexed(index first) const& {
+		typename types::layout_t new_layout = this->layout();
+		new_layout.reindex(first);
+		return const_subarray{new_layout, types::base_};
+	}
 
  private:
 	BOOST_MULTI_HD constexpr auto taked_aux_(difference_type count) const {
@@ -3008,7 +3013,13 @@ struct const_subarray<T, 1, ElementPtr, Layout>  // NOLINT(fuchsia-multiple-inhe
 	/*[[gnu::pure]]*/ constexpr auto blocked(index first, index last)& -> const_subarray {
 		return sliced(first, last).reindexed(first);
 	}
+	/*[[gnu::pure]]*/ constexpr auto blocked(index first, index last) const& -> basic_const_array {
+		return sliced(first, last).reindexed(first);
+	}
 	/*[[gnu::pure]]*/ constexpr auto stenciled(typename const_subarray::index_extension ext) -> const_subarray {
+		return blocked(ext.first(), ext.last());
+	}
+	/*[[gnu::pure]]*/ constexpr auto stenciled(typename const_subarray::index_extension ext) const -> basic_const_array {
 		return blocked(ext.first(), ext.last());
 	}
 
